@@ -326,12 +326,12 @@ def _c12_sweeps():
     # node handles: insert(node_type&&) of a node extracted from another container, racing lookups / traversal / plain inserts
     for kind, lvs in (("ommap", ("3333", "3232")), ("omset", ("3333",)), ("omap", ("3333",)), ("ummap", ("1",)), ("umap", ("1",))):
         sw = [{"prog": pr, "kind": kind, "prekeys": pk, "lv": lv} for lv in lvs for pk in ("", "7", "3,9") for pr in ("H7|C7|T", "H7|I7|C7", "H7|F7,C7|I8", "H7|H8|T", "H7|C7,C7|N7")]
-        L.append(sweep("sweep-%s-nodehandle" % kind, "c12_assoc", (2, 3), sw, what="%s: insert(node_type&&) of a node extracted from another container (where further nodes followed it) racing count / find / traversal / inserts" % kind,
-                       tiers=("quick", "thorough") if kind in ("ommap", "ummap") else ("thorough",)))
+        L.append(sweep("sweep-%s-nodehandle" % kind, "c12_assoc", (1, 2), sw, what="%s: insert(node_type&&) of a node extracted from another container (where further nodes followed it) racing count / find / traversal / inserts" % kind,
+                       tiers=("quick", "thorough") if kind in ("ommap",) else ("thorough",)))
     qa = ["I7", "I8", "C7"]
     for kind in ("ummap", "umset"):
         sw = [{"prog": prog_str(t), "kind": kind, "hash": "const", "prekeys": pk} for pk in ("5", "7") for t in thread_programs(qa, 2, 2, keep=useful)]
-        L.append(sweep("sweep-%s-const-q" % kind, "c12_assoc", (1, 2), sw, what="%s, constant hash (all keys share one split-order key): every pair of sequences of length 1-2 over insert 7 / insert 8 / count 7 with at least two insertions; equivalent keys must stay adjacent" % kind,
+        L.append(sweep("sweep-%s-const-q" % kind, "c12_assoc", (1, 2), sw, weight=3.0, what="%s, constant hash (all keys share one split-order key): every pair of sequences of length 1-2 over insert 7 / insert 8 / count 7 with at least two insertions; equivalent keys must stay adjacent" % kind,
                        tiers=("quick", "thorough") if kind == "ummap" else ("thorough",)))
     return L
 PROPS["C12"] = {
@@ -345,7 +345,7 @@ PROPS["C12"] = {
         leg("umap-one-bucket", "c12_assoc", (2, 3), {"kind": "umap", "hash": "const", "prekeys": "3,5", "prog": "I7|I9|T,F7"}, what="constant hash: all keys adjacent in split order"),
         leg("umap-doubling", "c12_assoc", (2, 2), {"kind": "umap", "pre": 32, "prog": "I8|I16|T"}, what="window crosses the 32-element table doubling; lazy init_bucket", weight=2.0),
         leg("uset-doubling", "c12_assoc", (2, 2), {"kind": "uset", "pre": 32, "prog": "I8,F8|M24|N8,T"}, what="set: doubling + find/contains", weight=2.0),
-        leg("ummap-equal", "c12_assoc", (2, 2), {"kind": "ummap", "prog": "I7|I7|C7,T"}, what="multimap: equal keys from two threads", weight=3.0),
+        leg("ummap-equal", "c12_assoc", (1, 2), {"kind": "ummap", "prog": "I7|I7|C7,T"}, what="multimap: equal keys from two threads", weight=3.0),
         leg("umset-equal", "c12_assoc", (2, 2), {"kind": "umset", "prekeys": "7", "prog": "I7|M7|C7"}, what="multiset: many equivalent keys"),
         leg("umap-adjacent", "c12_assoc", (2, 2), {"kind": "umap", "prekeys": "1", "prog": "I9|I17|F9,F17"}, what="keys that fall into one bucket chain (same low bits)"),
         leg("omap-same-key", "c12_assoc", (2, 3), {"kind": "omap", "prekeys": "3,9", "lv": "1231", "prog": "I7|I7|T"}, what="skip list: same key, mixed levels"),
